@@ -26,7 +26,7 @@ def run(ctx):
     evs = uidrv.ui_events(ctx, res)
     keys, bad = [], []
     for world in ("w1", "w2"):
-        part = [e for e in evs if e["ev"] in ("reset", "key", "wild", "hookexit", "resync") and e["world"] == world]
+        part = [e for e in evs if e["ev"] in ("reset", "key", "wild", "hookexit", "resync", "unsettled") and e["world"] == world]
         # session ids are per world: make them unique
         for e in part:
             if "sid" in e and not e.get("_renumbered"):
@@ -41,6 +41,8 @@ def run(ctx):
         if e["ev"] == "reset":
             cur = e["sid"]
             sess[cur] = {"start": e["start"], "keys": e["keys"], "steps": []}
+        elif e["ev"] == "unsettled":
+            sess[cur]["steps"].append(e)
         elif e["ev"] in ("hookexit", "resync"):
             e["k"] = e["ev"]
             sess[cur]["steps"].append(e)
